@@ -56,8 +56,16 @@ def rule_constructor(ctx):
             return 'size' in s and 'shape' in s and 'axes' in s
         return False
     raising = [p for p in raise_paths(ev) if any(shape_atom(a) and pol is False for a, pol in p.guards)]
+
+    def by_interpretation():
+        # the test is written some other way (a helper, a loop over the axes, a count test first ...): whether every mismatch between axes and data is refused is
+        # read off the interpreted scenarios of the constructor (wrong sizes, one wrong size, fewer / more axes than dimensions, for Axis lists, Axes objects, label lists)
+        from ..scenario_rule import rule_scenarios
+        rule_scenarios(ctx, 'R1', only=CLS + 'DimArray.__init__', title='DimArray.__init__ refuses axes that disagree with the data (interpreted scenarios)')
     for p in rets:
         g = [pol for a, pol in p.guards if shape_atom(a)]
+        if g != [True] and any(shape_atom(a) or ('size' in T.show(a) and 'shape' in T.show(a)) for a, pol in p.guards):
+            return by_interpretation()
         if g != [True]:
             ctx.violated('R1', fi, 'normal exit', 'DimArray.__init__ can finish without having compared the sizes of the axes with the shape '
                          'of the data: arrays whose axes disagree with their values would be accepted', node=p.node)
@@ -71,9 +79,7 @@ def rule_constructor(ctx):
         shape_terms = [('attr', ('attr', SELF, 'values'), 'shape'), ('attr', ('attr', SELF, '_values'), 'shape'), ('attr', SELF, 'shape')] + [('attr', v, 'shape') for v in st_vals[-1:]]
         ok_sides = any(any(T.contains(x, t) for t in axes_terms) for x in sides) and any(x in shape_terms for x in sides)
         if not ok_sides:
-            ctx.violated('R1', fi, T.show(atom)[:150], 'the consistency test must compare the sizes of the *stored* axes with the shape of the *stored* values',
-                         node=p.node)
-            return
+            return by_interpretation()
     if not raising:
         ctx.violated('R1', fi, 'shape mismatch', 'a mismatch between axes and data must raise')
         return
@@ -638,8 +644,22 @@ def rule_rename_routes(ctx, rid='R4'):
                 k = is_dup_test(a)
                 if (k == 'eq' and pol is False) or (k == 'in' and pol is True):
                     rejects = True
+        # a route that hands the renaming over to another route of this table (on the same object) is as good as that one
+        others = dict((r.rsplit('.', 1)[-1], r) for r, _ in RENAME_ROUTES if r != q and not r.endswith('.setter'))
+        deleg = None
+        rets = ret_paths(ev)
+        if not rejects and rets:
+            names = None
+            for p in rets:
+                here = set(T.call_name(e.a) for e in p.calls() if T.call_name(e.a) in others and T.call_receiver(e.a) == SELF
+                           and not any(e2.kind == 'store_attr' and e2.b in ('name', '_name') for e2 in p.events))
+                names = here if names is None else names & here
+            if names:
+                deleg = sorted(names)[0]
         if rejects:
             ctx.holds(rid, '%s: a name already used by another axis is refused' % how)
+        elif deleg:
+            ctx.holds(rid, '%s: handed over to self.%s(...) on every path, which refuses a name already in use (checked as its own route)' % (how, deleg))
         else:
             ctx.violated(rid, fi, 'rename to an existing dimension name accepted', '%s gives an axis a new name without testing it against the other dimension names of the array: '
                          'the array ends up with dims like (\'y\', \'y\'), after which a.axes[\'y\'], a.sum(axis=\'y\') ... silently address the first of the two' % how, node=fi.node)
